@@ -66,10 +66,12 @@ type Case struct {
 	HookPoint string `json:"hookPoint,omitempty"`
 	Sizes     []int  `json:"sizes,omitempty"`
 	EOFWith   bool   `json:"eofWithData,omitempty"`
+	// Perturb > 0: a PRNG-driven callback yields / sleeps at the client hook points during the case
+	Perturb int `json:"perturb,omitempty"`
 }
 
 func (c *Case) key() string {
-	return fmt.Sprintf("%s|%s|%s|%d|%d|%d|%v|%s|%s|%v|%s|%v|%v", c.Kind, c.Payload, c.Fault, c.Offset, c.Len, c.Chunk, c.Reuse, c.Deadline, c.Reader, c.Chunked, c.HookPoint, c.Sizes, c.EOFWith)
+	return fmt.Sprintf("%s|%s|%s|%d|%d|%d|%v|%s|%s|%v|%s|%v|%v|%d", c.Kind, c.Payload, c.Fault, c.Offset, c.Len, c.Chunk, c.Reuse, c.Deadline, c.Reader, c.Chunked, c.HookPoint, c.Sizes, c.EOFWith, c.Perturb)
 }
 
 // ---------- scripted collaborators ----------
@@ -416,6 +418,25 @@ func checkReleased(m *mon.M, c *Case, h *harness, before map[string]string, sigP
 
 func runCase(m *mon.M, c *Case) {
 	m.Eval(1)
+	if c.Perturb > 0 && c.Kind != "cancel" && c.Kind != "drain" {
+		var mu sync.Mutex
+		state := uint64(c.Perturb)*2654435761 + 12345
+		verifhook.Set(func(string) {
+			mu.Lock()
+			state = state*6364136223846793005 + 1442695040888963407
+			d := state >> 60
+			mu.Unlock()
+			switch {
+			case d < 6:
+			case d < 12:
+				runtime.Gosched()
+			default:
+				time.Sleep(time.Duration(20*d) * time.Microsecond)
+			}
+		})
+		defer verifhook.Set(nil)
+		m.Class("schedule-perturbed")
+	}
 	switch c.Kind {
 	case "presend":
 		runPresend(m, c)
@@ -880,14 +901,21 @@ func enumerate(m *mon.M) []*Case {
 	maxLen := 64
 	lens := []int{0, 1, 2, 7, 64}
 	if !quick {
-		maxLen = 1500
-		lens = []int{0, 1, 2, 7, 64, 511, 512, 513, 600, 1024, 1500}
+		maxLen = 70000
+		lens = nil
+		for l := 0; l <= 64; l++ {
+			lens = append(lens, l)
+		}
+		lens = append(lens, 100, 255, 256, 257, 510, 511, 512, 513, 514, 600, 1023, 1024, 1500, 4095, 4096, 4097, 70000)
 	}
 	_ = maxLen
 	for _, p := range []string{"file", "files+fields", "reader", "readcloser"} {
 		for _, l := range lens {
 			step := 1
-			if l > 128 {
+			switch {
+			case l > 2000:
+				step = l / 40
+			case l > 600 || (quick && l > 128):
 				step = 7
 			}
 			for off := 0; off <= l; off += step {
@@ -964,6 +992,9 @@ func enumerate(m *mon.M) []*Case {
 					if !quick {
 						for _, d := range sizes {
 							cs = append(cs, &Case{Kind: "drain", Len: l, EOFWith: ew, Sizes: []int{a, b, d}})
+							for _, e := range sizes {
+								cs = append(cs, &Case{Kind: "drain", Len: l, EOFWith: ew, Sizes: []int{a, b, d, e}})
+							}
 						}
 					}
 				}
@@ -975,6 +1006,20 @@ func enumerate(m *mon.M) []*Case {
 
 func run(m *mon.M) {
 	cs := enumerate(m)
+	if !m.Quick() {
+		// second pass over the placements that involve goroutines, with the schedule perturbed at the hook points
+		n := len(cs)
+		for i := 0; i < n; i++ {
+			if k := cs[i].Kind; k == "presend" || k == "upload" || k == "roundtrip" || k == "server" {
+				if k == "upload" && cs[i].Len > 600 {
+					continue
+				}
+				cp := *cs[i]
+				cp.Perturb = 1 + i%7
+				cs = append(cs, &cp)
+			}
+		}
+	}
 	if m.Shard == 0 {
 		m.Note("fault_placements_enumerated", int64(len(cs)))
 	}
